@@ -2042,7 +2042,16 @@ def run_oracle(ctx, call, case, key=None, nontrivial=True):
     return r
 
 
+def _r1516():
+    """the helper module with the classes R15 (close values) and R16 (argument identity / buffer reuse)"""
+    from harness.props import c19_r1516
+    for k_, v_ in c19_r1516.ORACLES.items():
+        ORACLES.setdefault(k_, v_)
+    return c19_r1516
+
+
 def replay(ctx, rep):
+    _r1516()
     try:
         return ORACLES[rep['call']](rep['case']) is not None
     except StreamEnd:
@@ -4167,6 +4176,8 @@ def correspondence(ctx, nshapes, nq, nusers, cluster_cases, ndist, npp, nhist):
     guarded(ctx, 'clusters', corr_clusters, drv, cluster_cases)
     guarded(ctx, 'distm', corr_distm, drv, ndist)
     guarded(ctx, 'pp', corr_pp, drv, npp)
+    guarded(ctx, 'close-values', _r1516().close_corr, drv)
+    guarded(ctx, 'buffer-reuse', _r1516().buffer_corr, drv)
 
 
 # ------------------------------------------------------------------ oracle runs
@@ -4241,6 +4252,8 @@ def oracles(ctx, nshapes, nq, nusers, cluster_cases, ndist, npp, nhist):
             case['draws'] = None
             case['npseed'] = ctx.rng.below(2 ** 31)
         run_oracle(ctx, 'pointprocess', case, key=('pp', repr(case)[:200]))
+    _r1516().close_oracles(ctx)
+    _r1516().buffer_oracles(ctx)
 
 
 def cluster_cases_for(ctx, nrot):
@@ -4309,6 +4322,7 @@ def check(ctx):
                              'R10:heterogeneous', 'R11:queries-and-plots', 'R12:insertion-order', 'R13:derived-objects',
                              'R14:counts', 'R8:corr:keyword', 'R8:corr:setter-path', 'R13:corr:deepcopy', 'R10:corr:heterogeneous',
                              'R9:corr:index>256', 'R12:corr:insertion-order', 'R14:corr:counts', 'R11:queries-in-history']
+    ctx.required_branches += _r1516().REQUIRED
     cases = cluster_cases_for(ctx, nrot)
     try:
         correspondence(ctx, nshapes, nq, nusers, cases, ndist, npp, nhist)
